@@ -1,49 +1,123 @@
-(* Layer B, bit-exact: ddsketch/stat/summary.go on Flocq binary64 (compensated summation as written). *)
+(* Layer B: ddsketch/stat/summary.go, written once over an abstract float arithmetic and
+   instantiated twice: on Flocq binary64 (the bit-exact shadow that runs against the
+   implementation) and on exact extended rationals (the instance the algebraic theorems are
+   about). The compensated summation is transcribed as written. Definitions only. *)
 From Flocq Require Import IEEE754.BinarySingleNaN IEEE754.Binary IEEE754.Bits.
 From SK Require Import Base.Prelude Base.F64.
 
-Record summary := { su_count : f64; su_sum : f64; su_comp : f64; su_simple : f64; su_min : f64; su_max : f64 }.
-Definition su_new : summary :=
-  {| su_count := f64_zero; su_sum := f64_zero; su_comp := f64_zero; su_simple := f64_zero; su_min := f64_pinf; su_max := f64_ninf |}.
+Section Generic.
+Variable F : Type.
+Variables (add sub mul : F -> F -> F) (lt eq : F -> F -> bool) (is_nan is_inf : F -> bool) (zero pinf ninf : F).
 
-Definition su_sum_with_comp (s : summary) (v : f64) : summary :=
-  let tmp := fsub v (su_comp s) in
-  let velvel := fadd (su_sum s) tmp in
-  {| su_count := su_count s; su_sum := velvel; su_comp := fsub (fsub velvel (su_sum s)) tmp;
-     su_simple := su_simple s; su_min := su_min s; su_max := su_max s |}.
-Definition su_add_to_count (s : summary) (c : f64) : summary :=
-  {| su_count := fadd (su_count s) c; su_sum := su_sum s; su_comp := su_comp s; su_simple := su_simple s; su_min := su_min s; su_max := su_max s |}.
-Definition su_add_to_sum (s : summary) (a : f64) : summary :=
-  let s1 := su_sum_with_comp s a in
-  {| su_count := su_count s1; su_sum := su_sum s1; su_comp := su_comp s1; su_simple := fadd (su_simple s1) a; su_min := su_min s1; su_max := su_max s1 |}.
-Definition su_minmax (s : summary) (v : f64) : summary :=
-  {| su_count := su_count s; su_sum := su_sum s; su_comp := su_comp s; su_simple := su_simple s;
-     su_min := if flt v (su_min s) then v else su_min s; su_max := if flt (su_max s) v then v else su_max s |}.
-Definition su_add (s : summary) (v c : f64) : summary :=
-  su_minmax (su_add_to_sum (su_add_to_count s c) (fmul v c)) v.
-Definition su_merge (s o : summary) : summary :=
-  let s1 := su_add_to_count s (su_count o) in
-  let s2 := su_sum_with_comp (su_sum_with_comp s1 (su_sum o)) (su_comp o) in
-  {| su_count := su_count s2; su_sum := su_sum s2; su_comp := su_comp s2; su_simple := fadd (su_simple s2) (su_simple o);
-     su_min := if flt (su_min o) (su_min s2) then su_min o else su_min s2;
-     su_max := if flt (su_max s2) (su_max o) then su_max o else su_max s2 |}.
-Definition su_get_sum (s : summary) : f64 :=
-  let tmp := fadd (su_sum s) (su_comp s) in
-  if f_is_nan tmp && negb (f_is_finite (su_simple s)) && negb (f_is_nan (su_simple s)) then su_simple s else tmp.
-Definition su_reweight (s : summary) (f : f64) : summary :=
-  let z := feq f f64_zero in
-  {| su_count := fmul (su_count s) f; su_sum := fmul (su_sum s) f; su_comp := fmul (su_comp s) f; su_simple := fmul (su_simple s) f;
-     su_min := if z then f64_pinf else su_min s; su_max := if z then f64_ninf else su_max s |}.
-Definition su_rescale (s : summary) (f : f64) : summary :=
-  let base mn mx := {| su_count := su_count s; su_sum := fmul (su_sum s) f; su_comp := fmul (su_comp s) f;
-                       su_simple := fmul (su_simple s) f; su_min := mn; su_max := mx |} in
-  if flt f64_zero f then base (fmul (su_min s) f) (fmul (su_max s) f)
-  else if flt f f64_zero then base (fmul (su_max s) f) (fmul (su_min s) f)
-  else if negb (feq (su_count s) f64_zero) then base f64_zero f64_zero
-  else base (su_min s) (su_max s).
+Record gsummary := { g_count : F; g_sum : F; g_comp : F; g_simple : F; g_min : F; g_max : F }.
+Definition g_new : gsummary :=
+  {| g_count := zero; g_sum := zero; g_comp := zero; g_simple := zero; g_min := pinf; g_max := ninf |}.
+
+Definition g_sum_with_comp (s : gsummary) (v : F) : gsummary :=
+  let tmp := sub v (g_comp s) in
+  let velvel := add (g_sum s) tmp in
+  {| g_count := g_count s; g_sum := velvel; g_comp := sub (sub velvel (g_sum s)) tmp;
+     g_simple := g_simple s; g_min := g_min s; g_max := g_max s |}.
+Definition g_add_to_count (s : gsummary) (c : F) : gsummary :=
+  {| g_count := add (g_count s) c; g_sum := g_sum s; g_comp := g_comp s; g_simple := g_simple s; g_min := g_min s; g_max := g_max s |}.
+Definition g_add_to_sum (s : gsummary) (a : F) : gsummary :=
+  let s1 := g_sum_with_comp s a in
+  {| g_count := g_count s1; g_sum := g_sum s1; g_comp := g_comp s1; g_simple := add (g_simple s1) a; g_min := g_min s1; g_max := g_max s1 |}.
+Definition g_minmax (s : gsummary) (v : F) : gsummary :=
+  {| g_count := g_count s; g_sum := g_sum s; g_comp := g_comp s; g_simple := g_simple s;
+     g_min := if lt v (g_min s) then v else g_min s; g_max := if lt (g_max s) v then v else g_max s |}.
+(* Add(value, count) *)
+Definition g_add (s : gsummary) (v c : F) : gsummary :=
+  g_minmax (g_add_to_sum (g_add_to_count s c) (mul v c)) v.
+Definition g_merge (s o : gsummary) : gsummary :=
+  let s1 := g_add_to_count s (g_count o) in
+  let s2 := g_sum_with_comp (g_sum_with_comp s1 (g_sum o)) (g_comp o) in
+  {| g_count := g_count s2; g_sum := g_sum s2; g_comp := g_comp s2; g_simple := add (g_simple s2) (g_simple o);
+     g_min := if lt (g_min o) (g_min s2) then g_min o else g_min s2;
+     g_max := if lt (g_max s2) (g_max o) then g_max o else g_max s2 |}.
+(* Sum() *)
+Definition g_get_sum (s : gsummary) : F :=
+  let tmp := add (g_sum s) (g_comp s) in
+  if is_nan tmp && is_inf (g_simple s) then g_simple s else tmp.
+Definition g_reweight (s : gsummary) (f : F) : gsummary :=
+  let z := eq f zero in
+  {| g_count := mul (g_count s) f; g_sum := mul (g_sum s) f; g_comp := mul (g_comp s) f; g_simple := mul (g_simple s) f;
+     g_min := if z then pinf else g_min s; g_max := if z then ninf else g_max s |}.
+Definition g_rescale (s : gsummary) (f : F) : gsummary :=
+  let base mn mx := {| g_count := g_count s; g_sum := mul (g_sum s) f; g_comp := mul (g_comp s) f;
+                       g_simple := mul (g_simple s) f; g_min := mn; g_max := mx |} in
+  if lt zero f then base (mul (g_min s) f) (mul (g_max s) f)
+  else if lt f zero then base (mul (g_max s) f) (mul (g_min s) f)
+  else if negb (eq (g_count s) zero) then base zero zero
+  else base (g_min s) (g_max s).
+End Generic.
+
+(* ---- instance 1: IEEE binary64 (Flocq) ---- *)
+Definition f_is_inf (x : f64) : bool := negb (f_is_finite x) && negb (f_is_nan x).
+Definition summary := gsummary f64.
+Definition su_count : summary -> f64 := @g_count f64.
+Definition su_sum : summary -> f64 := @g_sum f64.
+Definition su_comp : summary -> f64 := @g_comp f64.
+Definition su_simple : summary -> f64 := @g_simple f64.
+Definition su_min : summary -> f64 := @g_min f64.
+Definition su_max : summary -> f64 := @g_max f64.
+Definition su_new : summary := g_new f64 f64_zero f64_pinf f64_ninf.
+Definition su_add_to_count : summary -> f64 -> summary := g_add_to_count f64 fadd.
+Definition su_add_to_sum : summary -> f64 -> summary := g_add_to_sum f64 fadd fsub.
+Definition su_add : summary -> f64 -> f64 -> summary := g_add f64 fadd fsub fmul flt.
+Definition su_merge : summary -> summary -> summary := g_merge f64 fadd fsub flt.
+Definition su_get_sum : summary -> f64 := g_get_sum f64 fadd f_is_nan f_is_inf.
+Definition su_reweight : summary -> f64 -> summary := g_reweight f64 fmul feq f64_zero f64_pinf f64_ninf.
+Definition su_rescale : summary -> f64 -> summary := g_rescale f64 fmul flt feq f64_zero.
 (* NewSummaryStatisticsFromData: None = refused *)
 Definition su_from_data (count sum mn mx : f64) : option summary :=
   if negb (fle f64_zero count) then None
   else if flt f64_zero count && flt mx mn then None
   else if feq count f64_zero && (negb (feq mn f64_pinf) || negb (feq mx f64_ninf)) then None
-  else Some {| su_count := count; su_sum := sum; su_comp := f64_zero; su_simple := sum; su_min := mn; su_max := mx |}.
+  else Some {| g_count := count; g_sum := sum; g_comp := f64_zero; g_simple := sum; g_min := mn; g_max := mx |}.
+
+(* ---- instance 2: exact extended rationals (NaN, +-Inf, finite Qc) ---- *)
+Definition xadd (a b : fval) : fval :=
+  match a, b with
+  | FNaN, _ | _, FNaN => FNaN
+  | FInf s, FInf t => if Bool.eqb s t then FInf s else FNaN
+  | FInf s, _ | _, FInf s => FInf s
+  | FFin x, FFin y => FFin (Qcplus x y)
+  end.
+Definition xneg (a : fval) : fval := match a with FNaN => FNaN | FInf s => FInf (negb s) | FFin x => FFin (Qcopp x) end.
+Definition xsub (a b : fval) : fval := xadd a (xneg b).
+Definition xsign (x : Qc) : comparison := Qccompare x w0.
+Definition xmul (a b : fval) : fval :=
+  match a, b with
+  | FNaN, _ | _, FNaN => FNaN
+  | FFin x, FFin y => FFin (Qcmult x y)
+  | FInf s, FInf t => FInf (xorb s t)
+  | FInf s, FFin y | FFin y, FInf s => match xsign y with Eq => FNaN | Gt => FInf s | Lt => FInf (negb s) end
+  end.
+Definition xlt (a b : fval) : bool :=
+  match a, b with
+  | FNaN, _ | _, FNaN => false
+  | FFin x, FFin y => wltb x y
+  | FInf true, FInf true => false | FInf true, _ => true
+  | _, FInf true => false
+  | FInf false, _ => false
+  | FFin _, FInf false => true
+  end.
+Definition xeq (a b : fval) : bool :=
+  match a, b with
+  | FFin x, FFin y => weqb x y
+  | FInf s, FInf t => Bool.eqb s t
+  | _, _ => false
+  end.
+Definition x_is_nan (a : fval) : bool := match a with FNaN => true | _ => false end.
+Definition x_is_inf (a : fval) : bool := match a with FInf _ => true | _ => false end.
+Definition xzero : fval := FFin w0.
+Definition xsummary := gsummary fval.
+Definition xs_new : xsummary := g_new fval xzero (FInf false) (FInf true).
+Definition xs_add : xsummary -> fval -> fval -> xsummary := g_add fval xadd xsub xmul xlt.
+Definition xs_merge : xsummary -> xsummary -> xsummary := g_merge fval xadd xsub xlt.
+Definition xs_get_sum : xsummary -> fval := g_get_sum fval xadd x_is_nan x_is_inf.
+Definition xs_reweight : xsummary -> fval -> xsummary := g_reweight fval xmul xeq xzero (FInf false) (FInf true).
+Definition xs_rescale : xsummary -> fval -> xsummary := g_rescale fval xmul xlt xeq xzero.
+Definition xs_add_to_count : xsummary -> fval -> xsummary := g_add_to_count fval xadd.
+Definition xs_add_to_sum : xsummary -> fval -> xsummary := g_add_to_sum fval xadd xsub.
